@@ -23,6 +23,12 @@ identically configured modules that receives the same re-configuration and the s
 equal it after every episode, TD targets = closed formula with Q read from the reference, get_rewards / get_action = reward
 centres / first greedy member computed from the reference.
 
+Plotting calls inside the history (`drawn_modules_block`): one channel module of a live agent is drawn once
+(`agent.fusion_art.modules[k].visualize(...)` / `.plot_cluster_bounds(ax, colors)`) between training and acting or between two
+episodes; the agent is then judged against a FusionART trained on the same joined rows and never drawn (equal state right after
+the drawing and after the next episode, get_rewards / get_action from the reference's reward map, TD targets = closed formula
+with Q from the reference, valid reward inputs).
+
 Tie: `artdrv fusion hist` on the joined rows (model `fusionKernel`), `falcon rew`,
 `falcon act`, `falcon sarsa` (models `getRewards`, `getAction`, `calcSarsa`)."""
 from __future__ import annotations
@@ -42,6 +48,8 @@ RULE = ("cases = (FALCON or TD_FALCON, channel widths, gammas, Fuzzy hyper-param
         "td_alpha / td_lambda re-assignments between episodes, earlier "
         "episodes, re-configurations (rho / alpha / beta per channel, set_params or attribute assignment, before which episode "
         "/ before the queries) of the module objects the caller passed to the constructor, "
+        "one plotting call (which channel module, visualize / plot_cluster_bounds variant, between training and acting / "
+        "between two episodes), "
         "trajectory, action space, optimality); a case is non-trivial when the trajectory has >= 2 "
         "transitions and the model >= 2 categories; distinct by hash of the whole tuple")
 
@@ -49,8 +57,8 @@ GAM3 = [[0.25, 0.25, 0.5], [0.5, 0.25, 0.25], [0.375, 0.375, 0.25], [0.5, 0.5, 0
 TDV = [0.0, 0.25, 0.5, 1.0]
 
 
-def build(r, name):
-    ds_, da = r.randint(1, 2), r.randint(1, 2)
+def build(r, name, widths=None):
+    ds_, da = widths or (r.randint(1, 2), r.randint(1, 2))
     sp = [specs.elem_spec(r, "FuzzyART", d) for d in (ds_, da, 1)]
     dims = [2 * ds_, 2 * da, 2]
     gam = list(r.choice(GAM3))
@@ -518,6 +526,221 @@ def reconfigured_modules_block(ctx):
                 cov.hit(f"reconf:get_action-{opt}-{'default' if default else 'explicit'}")
 
 
+# ------------------------------------------------------------------ a channel module of a live agent is drawn
+DRAWINGS = ["visualize:fusion-labels", "visualize:labels-copy", "visualize:short-colors", "visualize:default-axes",
+            "plot_cluster_bounds", "plot_cluster_bounds:short-colors"]
+
+
+def draw_channel_module(plt, ax, module, X, fusion_labels, how):
+    """ONE plotting call on a channel module (the inspection a user makes between training and acting); the arguments
+    are the caller's own copies of the rows, the labels are the live label arrays"""
+    ncat = len(module.W)
+    if how.startswith("visualize"):
+        # (channel modules of a FusionART carry no labels_ of their own: the labels are the host's)
+        y = np.array(fusion_labels) if how == "visualize:labels-copy" else fusion_labels
+        if how == "visualize:short-colors":
+            module.visualize(X, y, ax=ax, colors=["r", "g"][: max(1, min(2, ncat - 1))])
+        elif how == "visualize:default-axes":
+            module.visualize(X, y)
+        else:
+            module.visualize(X, y, ax=ax)
+    else:
+        extra = -1 if how.endswith("short-colors") else 7
+        module.plot_cluster_bounds(ax, [(0.1 * (k % 10), 0.5, 0.5, 1.0) for k in range(max(1, ncat + extra))])
+
+
+def drawn_modules_block(ctx):
+    """A plotting call is part of a history like any other call: a FuzzyART channel module of a live agent
+    (`agent.fusion_art.modules[k]`) is drawn ONCE (visualize with the live labels / a short colour list / no axes,
+    plot_cluster_bounds on the caller's axes with a long or a short colour list) between training and acting or between two
+    partial_fit episodes.  The property's statement, executed against a reference FusionART that is trained on the same
+    joined rows and never drawn: right after the drawing the agent's fusion_art still equals the reference; get_rewards
+    = reward centre of the category the reference predicts with the reward channel withheld; get_action = first arg-max /
+    arg-min of those rewards; the next episode's TD targets = closed formula with Q read from the reference, valid
+    reward-channel inputs; after the next episode the agent equals the reference trained on the joined (SARSA) rows.  A
+    drawing that raises is tolerated (the statement is still judged on the agent afterwards)."""
+    cov = ctx.cov
+    tag = ":channel-module-drawn"
+    try:
+        import matplotlib
+        matplotlib.use("Agg")
+        import matplotlib.pyplot as plt
+    except Exception:   # noqa
+        cov.hit("drawn:matplotlib-missing")
+        return
+    fig, ax = plt.subplots()
+    try:
+        for i in range(ctx.scale(60, 600)):
+            r = gen.rng_for(ctx.seed, "C16-drawn", i)
+            name = "TD_FALCON" if i % 2 else "FALCON"
+            # mostly agents with a two-feature channel (FuzzyART draws the first two features; a one-feature module cannot
+            # be drawn by the unchanged library: get_bounding_box asserts), some without
+            spec, sp, dims, gam, ds_, da = build(r, name, r.choice([(2, 2), (2, 1), (1, 2), (2, 2), (2, 1), (1, 2), (1, 1)]))
+            n_pre = r.randint(1, 2)                              # episodes before the drawing
+            when = r.choice(["before-queries", "between-episodes", "between-episodes"])
+            lens = [r.randint(2, 6) for _ in range(n_pre + 1)]
+            two_d = [k for k, d in enumerate((ds_, da, 1)) if d == 2]
+            channel = r.choice(two_d) if two_d and r.random() < 0.85 else r.randrange(3)
+            how = DRAWINGS[(i // 2 + i // 12) % len(DRAWINGS)]
+            episodes, joined = [], []
+            drawing = {"channel": channel, "call": how, "after_episode": n_pre - 1, "lifecycle": when, "calls": 1}
+            rep = {"spec": spec, "episodes": episodes, "drawing": drawing,
+                   "note": "agent.fusion_art.modules[channel] is drawn once after episode `after_episode`; the reference "
+                           "FusionART is trained on the same joined rows and never drawn"}
+            try:
+                est = with_bounds(make(spec), ds_, da)
+                twin = fusion_twin(sp, dims, gam, ds_, da)
+            except Exception as e:
+                ctx.issue("violation", f"{name}.__init__:{exc_enum(e)}{tag}", repr(e), rep)
+                continue
+
+            def episode(e_i, L, after_drawing):
+                """one training episode on agent and reference; -> False when a clause failed"""
+                S, A, R = trajectory(r, L, ds_, da)
+                episodes.append((S, A, R))
+                trained = hasattr(twin.modules[0], "W")
+                sfx = tag if after_drawing else ""
+                try:
+                    if name == "FALCON":
+                        use_fit = e_i == 0 and r.random() < 0.4
+                        J = np.hstack([S, A, R])
+                        with quiet():
+                            (est.fit if use_fit else est.partial_fit)(S, A, R)
+                    else:
+                        use_fit = False
+                        al, la = float(est.td_alpha), float(est.td_lambda)
+                        Q = expected_rewards(twin, S, A)[0].reshape(-1) if trained else np.zeros(L)
+                        expT = sarsa_closed(al, la, Q, (R[:, 0] + (1 - R[:, 1])) / 2)
+                        with quiet():
+                            Sf, Af, T = est.calculate_SARSA(S, A, R)
+                        T = np.asarray(T, dtype=float)
+                        if not targets_equal(S, A, Sf, Af, T, expT):
+                            ctx.issue("violation", "TD_FALCON.calculate_SARSA:!=closed-formula" + sfx,
+                                      f"episode {e_i}: targets {T.tolist()} expected "
+                                      f"{[[float(v) for v in row] for row in expT]} = clip(Q+alpha(r+lambda Q'-Q)) with Q from a "
+                                      f"FusionART trained on the same joined rows (alpha {al}, lambda {la}, trained {trained}; "
+                                      f"drawing: {drawing if after_drawing else None})", rep)
+                            return False
+                        valid = bool(np.all(T >= 0) and np.all(T <= 1) and np.all(np.abs(T.sum(axis=1) - 1.0) <= 1e-12))
+                        try:
+                            with quiet():
+                                est.fusion_art.modules[2].validate_data(T)
+                        except Exception:   # noqa
+                            valid = False
+                        if not valid:
+                            ctx.issue("violation", "TD_FALCON.calculate_SARSA:target-not-valid-reward-input" + sfx,
+                                      f"episode {e_i}: targets {T.tolist()} are not complement-coded values in [0,1]", rep)
+                            return False
+                        if after_drawing:
+                            cov.hit("drawn:td-episode-targets==closed-formula-and-valid")
+                        J = np.hstack([Sf, Af, T])
+                        with quiet():
+                            est.partial_fit(S, A, R)
+                    with quiet():
+                        (twin.fit if use_fit else twin.partial_fit)(J)
+                    if use_fit:
+                        joined.clear()
+                    joined.append(J)
+                    rep.setdefault("episode_calls", []).append("fit" if use_fit else "partial_fit")
+                except Exception as e:
+                    ctx.issue("violation", f"{name}.partial_fit:{exc_enum(e)}{sfx}", f"episode {e_i} raised {e!r}", rep)
+                    return False
+                if not eq_fusion(est.fusion_art, twin):
+                    sa, sb = snap_fusion(est.fusion_art), snap_fusion(twin)
+                    ctx.issue("violation", f"{name}.{'fit' if use_fit else 'partial_fit'}:!=FusionART-on-joined-rows{sfx}",
+                              f"after episode {e_i} the agent's fusion_art ({len(sa['W'])} categories, labels {sa['labels']}) "
+                              f"differs from a FusionART trained on the same joined rows ({len(sb['W'])} categories, labels "
+                              f"{sb['labels']}; drawing: {drawing if after_drawing else None})", rep)
+                    return False
+                if after_drawing:
+                    cov.hit("drawn:next-episode:fusion_art==FusionART(joined)")
+                return True
+
+            if not all(episode(e_i, lens[e_i], False) for e_i in range(n_pre)):
+                continue
+            # ------------------------------------------------ the drawing: one call on one channel module
+            fa = est.fusion_art
+            lo = sum(dims[:channel])
+            Xc = np.vstack(joined)[:, lo:lo + dims[channel]].copy()
+            ncat = len(fa.W)
+            try:
+                with quiet():
+                    draw_channel_module(plt, ax, fa.modules[channel], Xc, fa.labels_, how)
+                cov.hit(f"drawn:{how}")
+            except Exception as e:
+                drawing["raised"] = exc_enum(e)
+                cov.hit(f"drawn:raised:{how}:{exc_enum(e)}:channel-width-{dims[channel]}")
+            finally:
+                for n_ in plt.get_fignums():
+                    if n_ != fig.number:
+                        plt.close(n_)
+                ax.cla()
+            cov.hit(f"drawn:channel-{channel}-width-{dims[channel]}")
+            cov.hit(f"drawn:{name}:{when}")
+            cov.case((spec, [[x.tolist() for x in e_] for e_ in episodes], channel, how, when), ncat >= 2)
+            if ncat >= 2:
+                cov.hit("drawn:module-with->=2-categories")
+            # ------------------------------------------------ the agent still equals FusionART trained on the joined rows
+            if not eq_fusion(fa, twin):
+                sa, sb = snap_fusion(fa), snap_fusion(twin)
+                moved = [k for k in range(3) if not same_W(sa["chW"][k], sb["chW"][k])]
+                ctx.issue("violation", f"{name}.fusion_art:!=FusionART-on-joined-rows{tag}",
+                          f"after {how} on fusion_art.modules[{channel}] (a read-only inspection) the agent's fusion_art no longer "
+                          f"equals a FusionART trained on the same joined rows: channel weights {moved} differ, labels "
+                          f"{sa['labels']} vs {sb['labels']}, counters {sa['cnts']} vs {sb['cnts']}; e.g. channel {channel} "
+                          f"category 0: {np.asarray(sa['chW'][channel][0]).tolist()} vs "
+                          f"{np.asarray(sb['chW'][channel][0]).tolist()}", rep)
+            else:
+                cov.hit("drawn:fusion_art==FusionART(joined)-after-drawing")
+            # ------------------------------------------------ acting (between training and acting)
+            if when == "before-queries" or r.random() < 0.5:
+                nq = r.randint(1, 4)
+                Sq, Aq, _ = trajectory(r, nq, ds_, da)
+                if r.random() < 0.6:
+                    Sq[0], Aq[0] = episodes[0][0][0], episodes[0][1][0]
+                rq = dict(rep, S=Sq, A=Aq)
+                try:
+                    with quiet():
+                        got = est.get_rewards(Sq, Aq)
+                    exp, C = expected_rewards(twin, Sq, Aq)
+                    if got.shape != (nq, 1) or not np.array_equal(got, exp):
+                        ctx.issue("violation", f"{name}.get_rewards:!=reward-centre-of-predicted-category{tag}",
+                                  f"after {how} on channel {channel}: get_rewards {got.tolist()} expected {exp.tolist()} "
+                                  f"(reward centres of categories {C} of a FusionART trained on the same joined rows)", rq)
+                    else:
+                        cov.hit("drawn:get_rewards==centre")
+                except Exception as e:
+                    ctx.issue("violation", f"{name}.get_rewards:{exc_enum(e)}{tag}", f"raised {e!r}", rq)
+                for t in range(2):
+                    state = Sq[r.randrange(nq)]
+                    default = r.random() < 0.3
+                    space = None if default else gen.grid_rows(r, r.randint(2, 5), da, style=r.choice(["coarse", "dups", "uniform"]))
+                    opt = r.choice(["max", "min"])
+                    rp = dict(rep, state=state, space=space, optimality=opt)
+                    try:
+                        with quiet():
+                            act = est.get_action(state, action_space=None if default else space.copy(), optimality=opt)
+                            sp_used = np.array(twin.get_channel_centers(1)) if default else space
+                        rew = expected_rewards(twin, np.repeat(state.reshape(1, -1), len(sp_used), axis=0),
+                                               gen.cc(sp_used))[0].reshape(-1)
+                    except Exception as e:
+                        ctx.issue("violation", f"{name}.get_action:{exc_enum(e)}{tag}", f"raised {e!r}", rp)
+                        continue
+                    rew_l = [float(v) for v in rew]
+                    idx = rew_l.index(max(rew_l) if opt == "max" else min(rew_l))
+                    if not np.array_equal(np.asarray(act), sp_used[idx]):
+                        ctx.issue("violation", f"{name}.get_action:not-first-greedy{tag}",
+                                  f"after {how} on channel {channel}: get_action(optimality={opt!r}) returned "
+                                  f"{np.asarray(act).tolist()} but the first {opt} of the rewards {rew_l} learned from the joined "
+                                  f"rows (FusionART reference) is member {idx} = {sp_used[idx].tolist()}", rp)
+                    else:
+                        cov.hit(f"drawn:get_action-{opt}-{'default' if default else 'explicit'}")
+            # ------------------------------------------------ the next episode (between two partial_fit episodes)
+            episode(n_pre, lens[n_pre], True)
+    finally:
+        plt.close("all")
+
+
 def prepare(ctx):
     """Translator tie (see gen_tie.py): the source of this slice is re-translated to Lean on every run
     (harness/artv/rtrans.py) and proved equal to the model the property theorems are about"""
@@ -759,6 +982,8 @@ def run(ctx):
     near_tie_block(ctx)
     # ---------------------------------------------------- modules re-configured by the caller after construction
     reconfigured_modules_block(ctx)
+    # ---------------------------------------------------- a channel module of a live agent drawn inside the history
+    drawn_modules_block(ctx)
     # ---------------------------------------------------- model tie
     outs = run_driver(lines)
     for line, out, (kind, i, exp, rp) in zip(lines, outs, metas):
